@@ -65,7 +65,7 @@ PROPS["C14"] = {
     ] + [
         H("c14_replace_%d" % l, "c14_norm", "quick" if l <= 2 else "thorough", 600 if l <= 2 else 1800,
           "replace_newlines(x, CRLF) == reference for every x of length %d" % l,
-          ["normalize_lines::replace_newlines"], "L=%d" % l) for l in range(0, 6)
+          ["normalize_lines::replace_newlines"], "L=%d" % l, mem=(28 if l == 5 else None)) for l in range(0, 6)
     ] + [
         H("c14_reader_step_0", "c14_norm", "quick", 300, "NormalizedReader::cleanup_buffer (buffer scaled to 4) on an EMPTY final read from an arbitrary stale buffer and arbitrary carried octet: emits exactly the pending CR, if any",
           ["normalize_lines::NormalizedReader::cleanup_buffer", "normalize_lines::replace_newlines"], "4 stale octets + carried octet symbolic; fill level 0 only (levels 1..4 out of reach, see level_note)"),
